@@ -116,22 +116,62 @@ func hasNonAliasMerge(docs []parser.VerifDoc) bool {
 	return found
 }
 
-// anyTagKindMismatch: a node tagged !!map/!!seq that is not a mapping/sequence (with or without content).
-func anyTagKindMismatch(docs []parser.VerifDoc) bool {
+// tagKindMismatch: the node's explicit tag contradicts what it is (aliases resolved; a !!null tag never counts).
+func tagKindMismatch(n *yaml.Node) bool {
+	if n.Alias != nil {
+		n = n.Alias
+	}
+	tag := n.ShortTag()
+	if tag == "!!null" {
+		return false
+	}
+	switch n.Kind {
+	case yaml.MappingNode:
+		return tag != "!!map"
+	case yaml.SequenceNode:
+		return tag != "!!seq"
+	case yaml.ScalarNode:
+		return tag == "!!map" || tag == "!!seq"
+	}
+	return false
+}
+
+// hasRuleValueTagKindMismatch (known finding C01-tag-kind, narrowed after b22de24): the `labels` / `annotations` value of a
+// RULE mapping, or a value inside any `labels` / `annotations` mapping, carries an explicit tag contradicting its kind.
+// Also (b): a mapping or sequence explicitly tagged !!null (kindMismatch exempts every !!null-tagged node).
+// The group / rules / rule / group-labels sites with any other contradicting tag are NOT in the class any more.
+func hasRuleValueTagKindMismatch(docs []parser.VerifDoc) bool {
 	found := false
 	for _, d := range docs {
 		walkForest(d.Node, map[*yaml.Node]bool{}, func(n *yaml.Node) {
-			if n.Kind == yaml.AliasNode {
+			if (n.Kind == yaml.MappingNode || n.Kind == yaml.SequenceNode) && n.ShortTag() == "!!null" {
+				found = true // class (b): a collection explicitly tagged !!null
+			}
+			if n.Kind != yaml.MappingNode {
 				return
 			}
-			switch n.ShortTag() {
-			case "!!map":
-				if n.Kind != yaml.MappingNode {
+			isRule := false
+			for i := 0; i+1 < len(n.Content); i += 2 {
+				switch n.Content[i].Value {
+				case "record", "alert", "expr":
+					isRule = true
+				}
+			}
+			for i := 0; i+1 < len(n.Content); i += 2 {
+				if k := n.Content[i].Value; k != "labels" && k != "annotations" {
+					continue
+				}
+				v := n.Content[i+1]
+				if isRule && tagKindMismatch(v) {
 					found = true
 				}
-			case "!!seq":
-				if n.Kind != yaml.SequenceNode {
-					found = true
+				if v.Alias != nil {
+					v = v.Alias
+				}
+				for j := 1; j < len(v.Content); j += 2 {
+					if tagKindMismatch(v.Content[j]) {
+						found = true
+					}
 				}
 			}
 		})
@@ -147,74 +187,6 @@ func scalarIsNull(n *yaml.Node) bool {
 		return n.Decode(&v) == nil
 	}()
 	return ok && v == nil
-}
-
-// hasNullTagText: a scalar whose tag is !!null (explicit tag) but which yaml.v3 does not resolve to null
-// (`!!null x`: every decode of the node fails; `!!null ""` quoted: a string, not a null).
-func hasNullTagText(docs []parser.VerifDoc) bool {
-	found := false
-	for _, d := range docs {
-		walkForest(d.Node, map[*yaml.Node]bool{}, func(n *yaml.Node) {
-			if n.Kind == yaml.ScalarNode && n.ShortTag() == "!!null" && !scalarIsNull(n) {
-				found = true
-			}
-		})
-	}
-	return found
-}
-
-// hasGroupLabelsAlias: an item of a `groups` sequence whose `labels` value is an alias node (`labels: *anchor`):
-// parseGroup reads the alias node's own (empty) Content, so the group labels are neither validated nor attached.
-func hasGroupLabelsAlias(docs []parser.VerifDoc) bool {
-	found := false
-	for _, d := range docs {
-		walkForest(d.Node, map[*yaml.Node]bool{}, func(n *yaml.Node) {
-			if n.Kind != yaml.MappingNode {
-				return
-			}
-			for i := 0; i+1 < len(n.Content); i += 2 {
-				if n.Content[i].Value != "groups" || n.Content[i+1].Kind != yaml.SequenceNode {
-					continue
-				}
-				for _, g := range n.Content[i+1].Content {
-					if g.Alias != nil {
-						g = g.Alias
-					}
-					if g.Kind != yaml.MappingNode {
-						continue
-					}
-					for j := 0; j+1 < len(g.Content); j += 2 {
-						if g.Content[j].Value == "labels" && g.Content[j+1].Kind == yaml.AliasNode {
-							found = true
-						}
-					}
-				}
-			}
-		})
-	}
-	return found
-}
-
-// hasDoubleMerge: a mapping with more than one `<<` merge key.
-func hasDoubleMerge(docs []parser.VerifDoc) bool {
-	found := false
-	for _, d := range docs {
-		walkForest(d.Node, map[*yaml.Node]bool{}, func(n *yaml.Node) {
-			if n.Kind != yaml.MappingNode {
-				return
-			}
-			merges := 0
-			for i := 0; i+1 < len(n.Content); i += 2 {
-				if k := n.Content[i]; k.Kind == yaml.ScalarNode && k.Value == "<<" && k.ShortTag() == "!!merge" {
-					merges++
-				}
-			}
-			if merges > 1 {
-				found = true
-			}
-		})
-	}
-	return found
 }
 
 func hasAliasOrMerge(docs []parser.VerifDoc) bool {
@@ -416,16 +388,10 @@ func runC01(args []string) int {
 			}
 			known := ""
 			switch {
-			case anyTagKindMismatch(docs) || hasTagKindMismatch(docs):
+			case hasRuleValueTagKindMismatch(docs):
 				known = "C01-tag-kind"
 			case hasNonAliasMerge(docs):
 				known = "C01-merge-not-alias"
-			case hasNullTagText(docs):
-				known = "C01-null-tag-text"
-			case hasGroupLabelsAlias(docs):
-				known = "C01-group-labels-alias"
-			case hasDoubleMerge(docs):
-				known = "C01-double-merge"
 			}
 			if known != "" {
 				rep.failKnown(fmt.Sprint(id), what, kept, known)
@@ -453,9 +419,6 @@ func runC01(args []string) int {
 		if hasBinaryTag(docs) {
 			obsQ = "None"
 			rep.hist("prom-side-not-compared:binary-tag")
-		}
-		if hasNullTagText(docs) {
-			rep.hist("has:null-tag-with-text")
 		}
 		if hasAliasOrMerge(docs) {
 			rep.hist("has:alias-or-merge")
